@@ -70,6 +70,8 @@ KeySet ==
     \* a key that is the directory of another key: d is never written (the fs backends cannot hold both), but it is
     \* read and deleted like any other never-written key
     [] KeySetName = "dirkey" -> {<<100>>, <<100, 47, 101>>, <<100, 47, 120>>, <<100, 47, 101, 47, 120>>}   \* d  d/e  d/x  d/e/x
+    \* long keys that share their first 220 bytes ('^' stands for 220 bytes without a delimiter): ^a  ^b  z
+    [] KeySetName = "longshared" -> {<<94, 97>>, <<94, 98>>, <<122>>}
     [] KeySetName = "coll"  -> {<<100, 47, 120>>, <<100, 95, 120>>, <<100, 92, 120>>}            \* d/x, d_x, d\x
     [] KeySetName = "list"  -> {<<97>>, <<97, 47, 49>>, <<97, 45, 98>>, <<98>>} \* a, a/1, a-b, b
 
@@ -164,6 +166,13 @@ Ops(s) ==
                                     : b \in Buckets, k \in KeySet, v \in UNION {KnownVids(s, b2, k2) : b2 \in Buckets, k2 \in KeySet} \cup {"v0"}} ELSE {})
 \cup (IF On("DeleteMultiVersions") THEN {[op |-> "DeleteMulti", b |-> b, objs |-> <<[k |-> k, vid |-> v]>>]
                                     : b \in Buckets, k \in KeySet, v \in UNION {KnownVids(s, b2, k2) : b2 \in Buckets, k2 \in KeySet}} ELSE {})
+\* one request mixing an entry that names a version with a plain entry, in both orders (the second key may be the same)
+\cup (IF On("DeleteMultiMixed")
+        THEN UNION {UNION {{[op |-> "DeleteMulti", b |-> bk[1], objs |-> <<[k |-> bk[2], vid |-> v], [k |-> k2, vid |-> ""]>>],
+                            [op |-> "DeleteMulti", b |-> bk[1], objs |-> <<[k |-> k2, vid |-> ""], [k |-> bk[2], vid |-> v]>>]}
+                           : k2 \in KeySet, v \in KnownVids(s, bk[1], bk[2])}
+                    : bk \in Buckets \X KeySet}
+        ELSE {})
 \cup (IF On("ListVersions") THEN {[op |-> "ListVersions", b |-> b, prefix |-> <<>>, delim |-> <<>>] : b \in Buckets} ELSE {})
 
 \* ---- multipart operations ----
